@@ -163,8 +163,6 @@ def inject(data, fault, rnd):
     if fault == 'unknown_type':
         s = rnd.choice(sts)[0]
         s['type'] = rnd.choice(['history', 'Final', 'compound', 'shallow', 7, None if 'type' in s else 'basic'])
-        if s['type'] is None:
-            return None
         return 'type %r on %r' % (s['type'], s['name'])
     if fault == 'bad_priority':
         cand = [s for s, _ in sts if s.get('transitions')]
@@ -303,8 +301,8 @@ def jsonable(d):
 
 class C12(Prop):
     id = 'C12'
-    quick_cases = 500
-    thorough_cases = 12000
+    quick_cases = 1500
+    thorough_cases = 40000
     level = 'proof'
     rule = ('base documents = the 25 shipped YAML charts and random generated charts (exported); each case injects one '
             '(thorough: up to two) of 16 fault kinds (duplicate name, unknown target, transition on final/history, '
